@@ -217,7 +217,7 @@ def check_dataframe(r, viol):
 @st.composite
 def result_case(draw, tier):
     return {"kind": draw(st.sampled_from(KINDS)), "seed": draw(st.integers(0, 10 ** 6)), "N": draw(st.sampled_from([64, 200, 777])),
-            "which": draw(st.sampled_from(RAW[:1] + BOTH + AUTO_ONLY + CROSS_ONLY)), "us": draw(st.lists(st.floats(0, 1), min_size=1, max_size=4)),
+            "which": draw(st.sampled_from(RAW + RAW[3:6] + BOTH + AUTO_ONLY + CROSS_ONLY)), "us": draw(st.lists(st.floats(0, 1), min_size=1, max_size=4)),
             "pre": draw(st.sampled_from(["none", "copy", "deepcopy", "pickle"]))}
 
 
@@ -305,7 +305,7 @@ class ResultHistory(TracedMachine):
         self.viol.extend(v)
 
     @precondition(lambda self: self.pool)
-    @rule(i=st.integers(0, 7), which=st.sampled_from(BOTH + AUTO_ONLY + CROSS_ONLY), u=st.floats(0, 1))
+    @rule(i=st.integers(0, 7), which=st.sampled_from(RAW + BOTH + AUTO_ONLY + CROSS_ONLY), u=st.floats(0, 1))
     def measure(self, i, which, u):
         self.step("measure", i=i, which=which, u=u)
 
